@@ -127,12 +127,13 @@ class AbstractSourceSinkGraph(nx.DiGraph):
                 raise ValueError(
                     f"Edge ({u},{v}) does not have the required flow attribute '{flow_attr}'."
                 )
-            if data[flow_attr] < 0:
+            # (written so that NaN, for which every comparison is False, is rejected as well; an infinite value is no flow value either)
+            if not (data[flow_attr] >= 0) or data[flow_attr] == float("inf"):
                 utils.logger.error(
-                    f"Edge ({u},{v}) has negative flow value {data[flow_attr]}. All flow values must be >=0."
+                    f"Edge ({u},{v}) has negative or non-finite flow value {data[flow_attr]}. All flow values must be >=0."
                 )
                 raise ValueError(
-                    f"Edge ({u},{v}) has negative flow value {data[flow_attr]}. All flow values must be >=0."
+                    f"Edge ({u},{v}) has negative or non-finite flow value {data[flow_attr]}. All flow values must be >=0."
                 )
             w_max = max(w_max, data[flow_attr])
         return w_max
